@@ -33,6 +33,9 @@ DEEP = [  # (name, prefix, unit, suffix_unit) structured deep-nesting inputs
 # nesting that mixes the three guarded categories (expressions, patterns, type expressions): the bound on the call
 # stack and the progress-guard fuel must hold for their SUM, not per category
 MIXED = {
+    'list-unclosed-then-item': lambda n: 'fn f() {\n  ' + '[' * n + '\n}\n\npub fn g() { 1 }\n',
+    'call-unclosed-then-item': lambda n: 'fn f() {\n  ' + 'g(' * n + '\n}\n\npub fn g() { 1 }\n',
+    'block-unclosed-then-item': lambda n: 'fn f() ' + '{ ' * n + '\n}\n\npub fn g() { 1 }\n',
     'mixed-call-then-fn-type': lambda n: 'fn main() {\n  ' + 'f(' * n + 'fn(a: ' + 'fn(' * n,
     'mixed-block-then-pattern': lambda n: 'fn f() ' + '{ ' * n + 'let ' + '[' * n,
     'mixed-list-then-lambda-type': lambda n: 'fn f() { ' + '[' * n + 'fn(a: ' + '#(' * n,
